@@ -71,6 +71,7 @@ func genC10(t *testing.T) {
 	if common.Batch == 0 {
 		soakFold(common.Pick(20000, 200000))
 	}
+	progsC10(t)
 }
 
 func rep2(m string, n int) []string { return rep(m, n) }
